@@ -78,6 +78,12 @@ func (m *streamWorld) vals(id int) streamVals {
 			v.null |= 1 << bit
 		}
 	}
+	if id%4 == 2 {
+		// whatever the seed: a string array whose element carries the escape byte in front of the delimiter byte (the
+		// array codec removes escapes in place when it decodes), never written as null
+		v.pa = []string{"\x00", "a\\|b"}
+		v.null &^= 1 << 2
+	}
 	if m.cfg.Big && pick(5) == 0 {
 		v.ps = strings.Repeat(fmt.Sprintf("%08d", id), 40000) // 320 KB: several of these cross the 2 MiB block limit
 	}
